@@ -122,8 +122,26 @@ func parseHeaders(headers []qpack.HeaderField, isRequest bool) (header, error) {
 func parseTrailers(headers []qpack.HeaderField) (http.Header, error) {
 	h := make(http.Header, len(headers))
 	for _, field := range headers {
+		// trailer fields are fields: the rules of section 4.2 of RFC 9114 apply to them as well
+		if strings.ToLower(field.Name) != field.Name {
+			return nil, fmt.Errorf("header field is not lower-case: %s", field.Name)
+		}
+		if !httpguts.ValidHeaderFieldValue(field.Value) {
+			return nil, fmt.Errorf("invalid header field value for %s: %q", field.Name, field.Value)
+		}
 		if field.IsPseudo() {
 			return nil, fmt.Errorf("http3: received pseudo header in trailer: %s", field.Name)
+		}
+		if !httpguts.ValidHeaderFieldName(field.Name) {
+			return nil, fmt.Errorf("invalid header field name: %q", field.Name)
+		}
+		for _, invalidField := range invalidHeaderFields {
+			if field.Name == invalidField {
+				return nil, fmt.Errorf("invalid header field name: %q", field.Name)
+			}
+		}
+		if field.Name == "te" && field.Value != "trailers" {
+			return nil, fmt.Errorf("invalid TE header field value: %q", field.Value)
 		}
 		h.Add(field.Name, field.Value)
 	}
